@@ -6,8 +6,8 @@ import time
 
 import z3
 
-Z3_MS = int(os.environ.get("PYVC_Z3_MS", "20000"))
-CVC5_MS = int(os.environ.get("PYVC_CVC5_MS", "20000"))
+Z3_MS = int(os.environ.get("PYVC_Z3_MS", "8000"))
+CVC5_MS = int(os.environ.get("PYVC_CVC5_MS", "6000"))
 CVC5 = "/usr/bin/cvc5"
 
 
@@ -44,8 +44,16 @@ def discharge(ob):
     if r == z3.unknown and ob.size_terms:
         # pass 2: look for a *small* counter-model (lengths <= 2, 3; integers in [-6, 6]).  Adding
         # constraints can only lose models, so a model found here is a genuine refutation.
+        # definitional axioms (cnt/sel of a filter) whose symbols do not occur in the goal are a
+        # conservative extension: dropping them keeps every model extendable
+        gtxt = ob.goal.sexpr()
+        light = [h for h in ob.hyps if not (h.get_id() in ob.definitional and all(nm not in gtxt for nm in ob.definitional[h.get_id()]))]
+        # the div/mod axiom is definitional as well (py_quo/py_rem are total functions)
+        others = gtxt + " ".join(h.sexpr() for h in light if "dm_x" not in h.sexpr()[:200])
+        if "py_rem" not in others and "py_quo" not in others:
+            light = [h for h in light if "dm_x" not in h.sexpr()[:200]]
         for bound in (2, 3):
-            sb = _solver(ob.hyps, ob.goal, True, 6000)
+            sb = _solver(light, ob.goal, True, 3000)
             for t in ob.size_terms:
                 is_len = str(t).endswith("_n") or "_n!" in str(t)
                 sb.add(t <= (bound if is_len else 6), t >= -6)
